@@ -115,8 +115,8 @@ macro_rules! h_to_row_vector {
 }
 h_to_row_vector!(c20_nd_to_row_vector_1x1, 1, 1, false, 6);
 h_to_row_vector!(c20_nd_to_row_vector_1x3, 1, 3, false, 8);
-h_to_row_vector!(c20_nd_to_row_vector_3x1, 3, 1, false, 8);
-h_to_row_vector!(c20_nd_to_row_vector_2x3, 2, 3, false, 8);
+h_to_row_vector!(c20_nd_to_row_vector_3x1_std, 3, 1, false, 8);
+h_to_row_vector!(c20_nd_to_row_vector_2x3_std, 2, 3, false, 8);
 h_to_row_vector!(c20_nd_to_row_vector_3x1_tr, 3, 1, true, 8);
 h_to_row_vector!(c20_nd_to_row_vector_2x2_tr, 2, 2, true, 8);
 h_to_row_vector!(c20_nd_to_row_vector_2x3_tr, 2, 3, true, 8);
@@ -181,7 +181,7 @@ macro_rules! h_transpose {
 }
 h_transpose!(c20_nd_transpose_1x1, 1, 1, false, 6);
 h_transpose!(c20_nd_transpose_1x3, 1, 3, false, 8);
-h_transpose!(c20_nd_transpose_2x3, 2, 3, false, 8);
+h_transpose!(c20_nd_transpose_2x3_std, 2, 3, false, 8);
 h_transpose!(c20_nd_transpose_3x2, 3, 2, false, 8);
 h_transpose!(c20_nd_transpose_2x3_tr, 2, 3, true, 8);
 
@@ -241,7 +241,7 @@ macro_rules! h_rows {
     };
 }
 h_rows!(c20_nd_rows_1x1, 1, 1, false, 6);
-h_rows!(c20_nd_rows_2x3, 2, 3, false, 8);
+h_rows!(c20_nd_rows_2x3_std, 2, 3, false, 8);
 h_rows!(c20_nd_rows_2x3_tr, 2, 3, true, 8);
 h_rows!(c20_nd_rows_3x2_tr, 3, 2, true, 8);
 
@@ -274,7 +274,7 @@ macro_rules! h_cols {
     };
 }
 h_cols!(c20_nd_cols_1x1, 1, 1, false, 6);
-h_cols!(c20_nd_cols_2x3, 2, 3, false, 8);
+h_cols!(c20_nd_cols_2x3_std, 2, 3, false, 8);
 h_cols!(c20_nd_cols_2x3_tr, 2, 3, true, 8);
 h_cols!(c20_nd_cols_3x2_tr, 3, 2, true, 8);
 
@@ -396,9 +396,9 @@ macro_rules! h_take {
         }
     };
 }
-h_take!(c20_nd_take_rows_2x3, 2, 3, false, [1usize, 0, 1], 0, 3, 3, 8);
+h_take!(c20_nd_take_rows_2x3_std, 2, 3, false, [1usize, 0, 1], 0, 3, 3, 8);
 h_take!(c20_nd_take_rows_2x3_tr, 2, 3, true, [1usize, 1], 0, 2, 3, 8);
-h_take!(c20_nd_take_cols_2x3, 2, 3, false, [2usize, 0], 1, 2, 2, 8);
+h_take!(c20_nd_take_cols_2x3_std, 2, 3, false, [2usize, 0], 1, 2, 2, 8);
 h_take!(c20_nd_take_cols_2x3_tr, 2, 3, true, [2usize, 0, 2, 1], 1, 2, 4, 8);
 
 // ---------------------------------------------------------------------------------------------- constructors
@@ -475,7 +475,7 @@ macro_rules! h_copy_from {
     };
 }
 h_copy_from!(c20_nd_copy_from_1x1, 1, 1, false, false, 6);
-h_copy_from!(c20_nd_copy_from_2x3, 2, 3, false, false, 8);
+h_copy_from!(c20_nd_copy_from_2x3_std, 2, 3, false, false, 8);
 h_copy_from!(c20_nd_copy_from_2x3_src_tr, 2, 3, false, true, 8);
 h_copy_from!(c20_nd_copy_from_2x3_dst_tr, 2, 3, true, false, 8);
 
@@ -498,7 +498,7 @@ macro_rules! h_negative {
     };
 }
 h_negative!(c20_nd_negative_1x1, 1, 1, false, 6);
-h_negative!(c20_nd_negative_2x3, 2, 3, false, 8);
+h_negative!(c20_nd_negative_2x3_std, 2, 3, false, 8);
 h_negative!(c20_nd_negative_2x3_tr, 2, 3, true, 8);
 
 macro_rules! h_abs {
@@ -519,7 +519,7 @@ macro_rules! h_abs {
     };
 }
 h_abs!(c20_nd_abs_1x1, 1, 1, false, 6);
-h_abs!(c20_nd_abs_2x3, 2, 3, false, 8);
+h_abs!(c20_nd_abs_2x3_std, 2, 3, false, 8);
 h_abs!(c20_nd_abs_2x3_tr, 2, 3, true, 8);
 
 // ---------------------------------------------------------------------------------------------- order-based reductions on mixed-sign constants
@@ -546,7 +546,7 @@ macro_rules! h_max_min {
 h_max_min!(c20_nd_max_min_1x1, 1, 1, false, 6);
 h_max_min!(c20_nd_max_min_1x3, 1, 3, false, 8);
 h_max_min!(c20_nd_max_min_2x2_tr, 2, 2, true, 8);
-h_max_min!(c20_nd_max_min_2x3, 2, 3, false, 8);
+h_max_min!(c20_nd_max_min_2x3_std, 2, 3, false, 8);
 h_max_min!(c20_nd_max_min_2x3_tr, 2, 3, true, 8);
 
 macro_rules! h_argmax {
@@ -569,7 +569,7 @@ macro_rules! h_argmax {
     };
 }
 h_argmax!(c20_nd_argmax_1x1, 1, 1, false, 6);
-h_argmax!(c20_nd_argmax_2x3, 2, 3, false, 8);
+h_argmax!(c20_nd_argmax_2x3_std, 2, 3, false, 8);
 h_argmax!(c20_nd_argmax_2x3_tr, 2, 3, true, 8);
 h_argmax!(c20_nd_argmax_3x2_tr, 3, 2, true, 8);
 
@@ -638,3 +638,90 @@ macro_rules! h_vector {
 }
 h_vector!(c20_nd_vector_1, 1, [0usize, 0], 2, 6);
 h_vector!(c20_nd_vector_3, 3, [2usize, 0, 2, 1], 4, 8);
+
+// ---------------------------------------------------------------------------------------------- buffer shorter than the row / column
+// DenseMatrix::copy_row_as_vec / copy_col_as_vec fill as many elements as the buffer holds and do not panic; parity demands
+// the same of the backend (no panic, same buffer).
+macro_rules! h_copy_short_buffer {
+    ($name:ident, $r:expr, $c:expr, $tr:expr, $unw:expr) => {
+        #[kani::proof]
+        #[kani::unwind($unw)]
+        fn $name() {
+            const R: usize = $r;
+            const C: usize = $c;
+            let vals: [f64; R * C] = kani::any();
+            let (d, b) = operands(R, C, $tr, &vals);
+            let filler: f64 = kani::any();
+            let mut dbuf = vec![filler; C - 1];
+            let mut bbuf = vec![filler; C - 1];
+            BaseMatrix::copy_row_as_vec(&d, R - 1, &mut dbuf);
+            BaseMatrix::copy_row_as_vec(&b, R - 1, &mut bbuf);
+            same_vector!(&dbuf, &bbuf, C - 1, "ndarray copy_row_as_vec into a shorter buffer: buffer length unchanged, as DenseMatrix", "ndarray copy_row_as_vec into a shorter buffer: same contents as DenseMatrix (which fills what fits and does not panic)");
+            let mut dbuf = vec![filler; R - 1];
+            let mut bbuf = vec![filler; R - 1];
+            BaseMatrix::copy_col_as_vec(&d, C - 1, &mut dbuf);
+            BaseMatrix::copy_col_as_vec(&b, C - 1, &mut bbuf);
+            same_vector!(&dbuf, &bbuf, R - 1, "ndarray copy_col_as_vec into a shorter buffer: buffer length unchanged, as DenseMatrix", "ndarray copy_col_as_vec into a shorter buffer: same contents as DenseMatrix (which fills what fits and does not panic)");
+            kani::cover!(bbuf.len() == R - 1);
+        }
+    };
+}
+h_copy_short_buffer!(c20_nd_copy_short_buffer_2x3_std, 2, 3, false, 8);
+
+// ---------------------------------------------------------------------------------------------- shape-mismatch parity
+// DenseMatrix rejects (panics on) operands of unequal shape in add_mut, h_stack, v_stack, reshape and copy_from. The
+// `c20_nd_ref_rejects_*` harnesses record that reference behaviour; the `c20_nd_rejects_*` harnesses demand the same of
+// the backend. #[kani::should_panic]: the harness passes iff the call panics and nothing else goes wrong; if the backend
+// accepts the operands Kani reports "FAILED (encountered no panics, but at least one was expected)".
+// Values are constants (add_mut would otherwise add symbolic floats on a backend that broadcasts instead of panicking).
+macro_rules! mismatch_op {
+    (add_mut, $a:ident, $b:ident, $r2:expr, $c2:expr) => {
+        BaseMatrix::add_mut(&mut $a, &$b);
+    };
+    (copy_from, $a:ident, $b:ident, $r2:expr, $c2:expr) => {
+        BaseMatrix::copy_from(&mut $a, &$b);
+    };
+    (h_stack, $a:ident, $b:ident, $r2:expr, $c2:expr) => {
+        let _s = BaseMatrix::h_stack(&$a, &$b);
+    };
+    (v_stack, $a:ident, $b:ident, $r2:expr, $c2:expr) => {
+        let _s = BaseMatrix::v_stack(&$a, &$b);
+    };
+    (reshape, $a:ident, $b:ident, $r2:expr, $c2:expr) => {
+        let _s = BaseMatrix::reshape(&$a, $r2, $c2);
+    };
+}
+macro_rules! h_rejects {
+    ($name:ident, $M:ty, $op:ident, $r1:expr, $c1:expr, $r2:expr, $c2:expr, $unw:expr) => {
+        #[kani::proof]
+        #[kani::unwind($unw)]
+        #[kani::should_panic]
+        #[allow(unused_mut, unused_variables)]
+        fn $name() {
+            let mut a: $M = BaseMatrix::fill($r1, $c1, 1.5);
+            let b: $M = BaseMatrix::fill($r2, $c2, -2.0);
+            kani::cover!(BaseMatrix::shape(&a) == ($r1, $c1) && BaseMatrix::shape(&b) == ($r2, $c2));
+            mismatch_op!($op, a, b, $r2, $c2);
+        }
+    };
+}
+h_rejects!(c20_nd_ref_rejects_add_mut_2x3_1x3, Dm, add_mut, 2, 3, 1, 3, 20);
+h_rejects!(c20_nd_ref_rejects_add_mut_2x3_3x2, Dm, add_mut, 2, 3, 3, 2, 20);
+h_rejects!(c20_nd_ref_rejects_add_mut_2x3_1x1, Dm, add_mut, 2, 3, 1, 1, 20);
+h_rejects!(c20_nd_ref_rejects_copy_from_2x3_1x3, Dm, copy_from, 2, 3, 1, 3, 20);
+h_rejects!(c20_nd_ref_rejects_copy_from_2x3_3x2, Dm, copy_from, 2, 3, 3, 2, 20);
+h_rejects!(c20_nd_ref_rejects_copy_from_2x3_1x1, Dm, copy_from, 2, 3, 1, 1, 20);
+h_rejects!(c20_nd_ref_rejects_h_stack_2x2_1x2, Dm, h_stack, 2, 2, 1, 2, 20);
+h_rejects!(c20_nd_ref_rejects_v_stack_2x2_2x1, Dm, v_stack, 2, 2, 2, 1, 20);
+h_rejects!(c20_nd_ref_rejects_reshape_2x3_to_2x2, Dm, reshape, 2, 3, 2, 2, 20);
+h_rejects!(c20_nd_ref_rejects_reshape_2x3_to_4x2, Dm, reshape, 2, 3, 4, 2, 20);
+h_rejects!(c20_nd_rejects_add_mut_2x3_1x3, Bk, add_mut, 2, 3, 1, 3, 20);
+h_rejects!(c20_nd_rejects_add_mut_2x3_3x2, Bk, add_mut, 2, 3, 3, 2, 20);
+h_rejects!(c20_nd_rejects_add_mut_2x3_1x1, Bk, add_mut, 2, 3, 1, 1, 20);
+h_rejects!(c20_nd_rejects_copy_from_2x3_1x3, Bk, copy_from, 2, 3, 1, 3, 20);
+h_rejects!(c20_nd_rejects_copy_from_2x3_3x2, Bk, copy_from, 2, 3, 3, 2, 20);
+h_rejects!(c20_nd_rejects_copy_from_2x3_1x1, Bk, copy_from, 2, 3, 1, 1, 20);
+h_rejects!(c20_nd_rejects_h_stack_2x2_1x2, Bk, h_stack, 2, 2, 1, 2, 20);
+h_rejects!(c20_nd_rejects_v_stack_2x2_2x1, Bk, v_stack, 2, 2, 2, 1, 20);
+h_rejects!(c20_nd_rejects_reshape_2x3_to_2x2, Bk, reshape, 2, 3, 2, 2, 20);
+h_rejects!(c20_nd_rejects_reshape_2x3_to_4x2, Bk, reshape, 2, 3, 4, 2, 20);
